@@ -375,8 +375,9 @@ func r19_4(r *Report, p *Program, impls []types.Type) {
 			r.Fail(rule, t.String(), "-", "anchor-lost", "adjustResponse/enrichHeaders not found")
 			continue
 		}
-		gets := callsTo(adj, false, "cache.Cache.Get")
-		sets := callsTo(adj, false, "cache.Cache.Set")
+		adjR := regionOf(p, adj) // adjustResponse and the single-call-site helpers it may have been split into
+		gets := adjR.calls("cache.Cache.Get")
+		sets := adjR.calls("cache.Cache.Set")
 		if len(gets) == 0 && len(sets) == 0 {
 			// stateless implementation: must return the body it was given
 			ok := true
@@ -394,17 +395,17 @@ func r19_4(r *Report, p *Program, impls []types.Type) {
 		// returns of a cached Response
 		for i, g := range gets {
 			entry := engine.ResultValue(g.Instr, 0)
-			for _, b := range engine.BlocksInl(adj) {
+			for _, b := range engine.BlocksInl(g.Fn) {
 				for _, in := range b.Instrs {
 					rt, isR := in.(*ssa.Return)
 					if !isR || entry == nil || !engine.DependsOnValue(rt.Results[0], entry, nil) {
 						continue
 					}
-					w := unguarded(adj, nil, rt, func(l Lit) bool {
+					w := adjR.unguarded(rt, func(l Lit) bool {
 						if l.Op != token.EQL || !l.Pos {
 							return false
 						}
-						a, bb := E(l.X), E(l.Y)
+						a, bb := E(adjR.up(l.X)), E(adjR.up(l.Y))
 						isTag := func(s string, v ssa.Value) bool {
 							return strings.HasSuffix(s, ".Etag") && engine.DependsOnValue(v, entry, nil)
 						}
@@ -415,7 +416,7 @@ func r19_4(r *Report, p *Program, impls []types.Type) {
 					})
 					r.Check(rule, sf("%s→cached-body#%d", FK(adj), i), p.InstrPos(in), w == nil, "cached body returned only if its ETag equals the If-None-Match that was sent", "the cache entry is re-read at response time and its body returned without comparing entry.Etag to the If-None-Match value sent with this request: a concurrent call for the same parent (e.g. another revision of a rolling update) may have replaced the entry, so a 304 is answered with another call's body")
 					// also guarded by 304/412 and by the header having been sent
-					w2 := unguarded(adj, nil, rt, func(l Lit) bool {
+					w2 := adjR.unguarded(rt, func(l Lit) bool {
 						return l.Pos && l.Op == token.EQL && strings.HasSuffix(E(l.X), ".StatusCode") && (E(l.Y) == "304" || E(l.Y) == "412")
 					})
 					r.Check(rule, sf("%s→cached-body#%d[only-on-304/412]", FK(adj), i), p.InstrPos(in), w2 == nil, "cached body only for 304/412", "a cached body can be returned for a status other than 304/412; "+pathWhy(w2))
@@ -447,6 +448,12 @@ func r19_4(r *Report, p *Program, impls []types.Type) {
 					for _, g := range gets {
 						if e := engine.ResultValue(g.Instr, 0); e != nil && engine.DependsOnValue(rt.Results[0], e, nil) {
 							fromCache = true
+						}
+						// … or what a split-off helper returns, which in turn hands back the entry's body or an error
+						if g.Fn != adj {
+							if c := engine.DependsOnCall(rt.Results[0], func(k string) bool { return k == FK(g.Fn) }, nil); c != nil {
+								fromCache = true
+							}
 						}
 					}
 					return !fromCache
@@ -482,7 +489,7 @@ func r19_4(r *Report, p *Program, impls []types.Type) {
 				}
 			}
 			// same key for Get and Set
-			if ok && len(gets) > 0 && E(s.Arg(0)) != E(gets[0].Arg(0)) {
+			if ok && len(gets) > 0 && E(adjR.up(s.Arg(0))) != E(adjR.up(gets[0].Arg(0))) {
 				ok, why = false, "cache is written under a different key than it is read"
 			}
 			r.Check(rule, sf("%s→Set#%d", FK(adj), i), p.InstrPos(s.Instr), ok, "entry = (this body, this ETag) under the read key", why)
@@ -509,7 +516,7 @@ func r19_4(r *Report, p *Program, impls []types.Type) {
 					ok, why = false, "If-None-Match set although no cache entry exists"
 				}
 			}
-			if ok && len(gets) > 0 && E(eg[0].Arg(0)) != E(gets[0].Arg(0)) {
+			if ok && len(gets) > 0 && E(eg[0].Arg(0)) != E(adjR.up(gets[0].Arg(0))) {
 				ok, why = false, "enrichHeaders and adjustResponse use different cache keys"
 			}
 		}
